@@ -183,6 +183,22 @@ fn run(prop: &str, tier_s: &str) -> i32 {
     };
     let unit_names: Vec<String> = units.iter().map(|u| u.name().to_string()).collect();
     drop(units);
+    // every worker builds the same grammar lists: do not start more workers than the machine has memory for
+    let jobs = {
+        let kb = |path: &str, key: &str| -> Option<u64> { std::fs::read_to_string(path).ok()?.lines().find(|l| l.starts_with(key))?.split_whitespace().nth(1)?.parse().ok() };
+        match (kb("/proc/self/status", "VmHWM:"), kb("/proc/meminfo", "MemAvailable:")) {
+            (Some(own), Some(avail)) if own > 0 => {
+                // a worker peaks at roughly 1.6x the size of the lists (observations, result buffers) plus a constant
+                let per_worker = own * 16 / 10 + 300_000;
+                let fit = ((avail * 8 / 10) / per_worker).max(4) as usize;
+                if fit < jobs {
+                    eprintln!("note: {} workers instead of {} ({} MB of grammar lists per worker, {} MB available)", fit, jobs, own / 1024, avail / 1024);
+                }
+                jobs.min(fit)
+            }
+            _ => jobs,
+        }
+    };
     let vd = verif_dir();
     let scratch = vd.join("scratch").join(format!("{prop}-{tier_s}-{}", std::process::id()));
     std::fs::create_dir_all(&scratch).unwrap();
